@@ -201,7 +201,7 @@ pub fn div_limb<const N: usize>(t: &mut Tape, c: &mut Case) -> CaseResult {
     };
     c.limbs("n", &nl);
     c.num("d", dw);
-    c.nontrivial(bit_len(&nl) > 64 && dw >= 2);
+    c.nontrivial(if N == 1 { nl[0] > dw && dw >= 2 } else { bit_len(&nl) > 64 && dw >= 2 });
     c.label(if dw >> 63 == 1 { "div_limb: normalised divisor" } else { "div_limb: divisor needs shift" });
     let n = uint::<N>(&nl);
     let bn = boxed(&nl);
